@@ -71,7 +71,8 @@ class Ctx:
         print("  detail: %s" % what, flush=True)
 
     def known_finding(self, what):
-        line = "KNOWN-FINDING: property=%s %s" % (self.pid, what)
+        import re as _re
+        line = "KNOWN-FINDING: property=%s %s" % (self.pid, _re.sub(r" \(trace line \d+\)", "", what))
         if line not in self.known:
             self.known.append(line)
             print(line, flush=True)
